@@ -444,7 +444,7 @@ impl<'de, 'a> Visitor<'de> for SeqV<'a> {
 	fn visit_seq<A: SeqAccess<'de>>(self, mut seq: A) -> Result<Val, A::Error> {
 		self.ctx.tick();
 		self.ctx.enter();
-		watch_size_hint(seq.size_hint(), crate::container::min_width(self.ctx.env, self.elem, 0));
+		watch_size_hint(seq.size_hint(), crate::ast::min_width(self.ctx.env, self.elem, 0));
 		let mut out = Vec::new();
 		let r = loop {
 			if out.len() > CAPTURE_ELEM_CAP {
